@@ -68,6 +68,12 @@ pub fn yield_point_public(id: &'static str) {
 	yield_point(id);
 }
 
+/// A blocking point for harness-side thread programs: the thread is enabled only
+/// while `is_locked` returns false (e.g. "wait until there is work").
+pub fn acquire_point_public(id: &'static str, is_locked: &dyn Fn() -> bool) {
+	acquire_point(id, is_locked);
+}
+
 #[inline]
 pub(crate) fn acquire_point(id: &'static str, is_locked: &dyn Fn() -> bool) {
 	if managed() {
